@@ -28,17 +28,17 @@ import (
 // recQueue records the requests an enqueue handler adds.
 type recQueue struct{ added []reconcile.Request }
 
-func (q *recQueue) Add(r reconcile.Request)                         { q.added = append(q.added, r) }
-func (q *recQueue) Len() int                                        { return len(q.added) }
-func (q *recQueue) Get() (reconcile.Request, bool)                  { return reconcile.Request{}, true }
-func (q *recQueue) Done(reconcile.Request)                          {}
-func (q *recQueue) ShutDown()                                       {}
-func (q *recQueue) ShutDownWithDrain()                              {}
-func (q *recQueue) ShuttingDown() bool                              { return false }
-func (q *recQueue) AddAfter(r reconcile.Request, _ time.Duration)   { q.added = append(q.added, r) }
-func (q *recQueue) AddRateLimited(r reconcile.Request)              { q.added = append(q.added, r) }
-func (q *recQueue) Forget(reconcile.Request)                        {}
-func (q *recQueue) NumRequeues(reconcile.Request) int               { return 0 }
+func (q *recQueue) Add(r reconcile.Request)                       { q.added = append(q.added, r) }
+func (q *recQueue) Len() int                                      { return len(q.added) }
+func (q *recQueue) Get() (reconcile.Request, bool)                { return reconcile.Request{}, true }
+func (q *recQueue) Done(reconcile.Request)                        {}
+func (q *recQueue) ShutDown()                                     {}
+func (q *recQueue) ShutDownWithDrain()                            {}
+func (q *recQueue) ShuttingDown() bool                            { return false }
+func (q *recQueue) AddAfter(r reconcile.Request, _ time.Duration) { q.added = append(q.added, r) }
+func (q *recQueue) AddRateLimited(r reconcile.Request)            { q.added = append(q.added, r) }
+func (q *recQueue) Forget(reconcile.Request)                      {}
+func (q *recQueue) NumRequeues(reconcile.Request) int             { return 0 }
 
 type eItem struct {
 	ctl, ns, name string
@@ -51,12 +51,12 @@ type eDelayed struct {
 
 // EventLoop is the E-mode scheduler state.
 type EventLoop struct {
-	w        *World
-	ready    []eItem
-	inReady  map[eItem]bool
-	delayed  []eDelayed
-	failures map[eItem]int
-	pending  []simapi.Event
+	w          *World
+	ready      []eItem
+	inReady    map[eItem]bool
+	delayed    []eDelayed
+	failures   map[eItem]int
+	pending    []simapi.Event
 	Reconciles int
 	lblHandler *enqueue.RequestForExtendedDaemonSetLabel
 	stHandler  *enqueue.RequestForExtendedDaemonSetStatus
